@@ -95,7 +95,12 @@ from mashumaro.jsonschema.models import (
     JSONSchemaInstanceType,
     JSONSchemaStringFormat,
 )
-from mashumaro.types import Alias, SerializationStrategy
+from mashumaro.types import (
+    Alias,
+    GenericSerializableType,
+    SerializableType,
+    SerializationStrategy,
+)
 
 try:
     from mashumaro.mixins.orjson import (
@@ -389,6 +394,31 @@ def on_type_with_overridden_serialization(
         except Exception as e:
             override_with_any(e)
         return get_schema(instance, ctx)
+
+
+@register
+def on_serializable_type(
+    instance: Instance, ctx: Context
+) -> Optional[JSONSchema]:
+    # a class that serializes itself (a dataclass as well) is written as
+    # whatever its _serialize method returns, not as its fields
+    try:
+        if not issubclass(
+            instance.origin_type, (SerializableType, GenericSerializableType)
+        ):
+            return None
+    except TypeError:
+        return None
+    try:
+        new_type = get_function_return_annotation(
+            instance.origin_type._serialize
+        )
+    except Exception:
+        new_type = Any
+    if new_type is instance.type or new_type is instance.origin_type:
+        return None
+    instance.update_type(new_type)
+    return get_schema(instance, ctx)
 
 
 @register
